@@ -491,6 +491,24 @@ def run(prog, ctx):
     ctx.check(ok, "C19.D6", R.key_of(isc, "out-of-range-removal"), isc.loc(rms[0]) if rms else isc.loc(),
               "every returned data set had its samples below/above the learned range removed",
               "_internal_scaling does not remove both the samples below and above the learned range from the data it returns on every path" + quant_msg)
+    # the learning-time scaling is applied to data that is NOT yet scaled, and only to such data: every scaling call on the checked data set
+    # is reached with the fact `not data.is_scaled()` (a set that already carries the learning scaling would be scaled twice)
+    dp = isc.params[1]
+    scaled_fact = ("call", ("a", ("n", dp), "is_scaled"), (), ())
+    c_isc = cfg_of(isc)
+    n_sc = 0
+    for call_ in R.calls_in(isc.node):
+        f_ = call_.func
+        if isinstance(f_, ast.Attribute) and f_.attr in ("shift_value", "scale_factor", "scale_range") and isinstance(f_.value, ast.Name) and f_.value.id == dp:
+            n_sc += 1
+            cn_ = c_isc.node_containing(call_)
+            facts = [g for (g, gn) in R.dominating_guards(isc, cn_, tmi2) if gn.kind == "test"] if cn_ is not None else []
+            ctx.check(("not", scaled_fact) in facts, "C19.D6", R.key_of(isc, "scale-only-unscaled-data#%d" % n_sc), isc.loc(call_),
+                      "the learning-time scaling is applied only to data that is not scaled yet",
+                      "`%s` can run for a data set that is already scaled (the path does not establish `not %s.is_scaled()`): a set that carries "
+                      "the learning scaling already is shifted and scaled a second time, its samples are classified at wrong positions or "
+                      "removed as out of range" % (src(call_)[:80], dp))
+    ctx.floor("C19.D6.scaling", n_sc, 2, "scaling calls of _internal_scaling")
     # the removal thresholds lie strictly OUTSIDE the range the learning data was scaled to: a sample on the learned extreme is mapped
     # to the end of the range only up to rounding ((max - min) * (0.99 / (max - min)) + 0.005 may be 0.9950000000000001); with thresholds
     # equal to the range ends it is removed as "out of bounds" instead of being classified
